@@ -54,6 +54,10 @@ pub async fn dispatch(ctx: &Ctx, rep: &mut ShardReport) -> bool {
             crate::conc::run(ctx, rep).await;
             true
         }
+        "C13" => {
+            crate::codec::run(ctx, rep).await;
+            true
+        }
         "C09" => {
             crate::perm::run(ctx, rep).await;
             true
